@@ -11,11 +11,16 @@ THEOREMS = [
     "C28_upcase_idem",
     "C28_downcase_idem_any_table",
     "C28_downcase_idem",
+    "C28_snake_kebab_screaming_idem_ascii",
+    "C28_casing_words_ok",
+    "C28_camel_pascal_idem_refuted",
     "C28_is_ws_spec",
     "C28_strip_ws_spec",
     "C28_strip_ws_idem",
     "C28_join_split",
     "C28_join_split_valid",
+    "C28_fn_join_split",
+    "C28_split_pieces_valid",
     "C28_starts_with_spec",
     "C28_ends_with_spec",
     "C28_contains_spec",
@@ -23,6 +28,7 @@ THEOREMS = [
     "C28_ci_spec",
     "C28_ci_final_sigma_refuted",
     "C28_starts_with_ci_refuted",
+    "C28_starts_with_ci_spec",
     "C28_truncate_len",
     "C28_truncate_spec",
     "C28_strlen_utf8",
@@ -44,7 +50,7 @@ THEOREMS = [
     "C28_nonvacuous",
 ]
 IMPORTS = ("From Coq Require Import List NArith ZArith String.\n"
-           "From VRL Require Import Base.Bytes Base.Value Base.Lit Model.CodecUtf8 Model.StrFns Model.CollFns Corr.C28.\n"
+           "From VRL Require Import Base.Bytes Base.Value Base.Lit Model.CodecUtf8 Model.StrFns Model.CollFns Model.Casing Corr.C28.\n"
            "Local Open Scope string_scope.")
 MANIFEST = {
     "level": "proof",
@@ -70,8 +76,9 @@ MANIFEST = {
             "case mapping tables (Model/CaseTables.v, generated from the implementation) cover U+0000-1FFF, 2100-21FF, "
             "2C60-2C7F, A640-A69F, A720-A7FF, FB00-FB17, FF21-FF5A, every entry re-checked against the implementation on every "
             "run; outside that domain the correspondence is silent and the *_any_table theorems + the exhaustive sweep carry "
-            "the claim. The casing functions (convert_case crate) and regex split patterns are not modelled: their laws are "
-            "only searched on the implementation (level of that part: test). merge_right_bias assumes unique keys in `from` "
+            "the claim. The casing functions (convert_case crate) are modelled on printable ASCII only "
+            "(Model/Casing.v: snake/kebab/screaming idempotent there, camel/pascal refuted); on other input, and for regex "
+            "split patterns, the laws are only searched on the implementation (level of that part: test). merge_right_bias assumes unique keys in `from` "
             "(a BTreeMap). Known findings (genuine defects, see known_findings/C28.json): case-insensitive starts_with "
             "zips chars (\"K\" U+212A starts with \"kk\"), panics on invalid UTF-8; case-insensitive ends_with/contains miss "
             "matches because of the final-sigma rule; camelcase/pascalcase (and on titlecase/multi-char-uppercase letters all "
